@@ -128,7 +128,8 @@ func relayParked() (bool, string) {
 	buf := make([]byte, 1<<20)
 	n := runtime.Stack(buf, true)
 	for _, g := range strings.Split(string(buf[:n]), "\n\n") {
-		if strings.Contains(g, "(*hijackWatch).receive") {
+		// any goroutine still running code of the helper package: the relay itself or a companion it started
+		if strings.Contains(g, "advanced-statefulset/client/apis/apps/v1/helper.") {
 			return true, g
 		}
 	}
